@@ -258,6 +258,8 @@ func julianDayAsNumberLit(t time.Time) *sql.NumberLit {
 }
 
 func julianDay(t time.Time) float64 {
+	// SQLite reads a number as a Julian day in UTC.
+	t = t.UTC()
 	year := t.Year()
 	month := int(t.Month())
 	day := t.Day()
